@@ -52,6 +52,31 @@ pub trait DSet: Sized {
     // C02 "out-of-range arguments give None rather than a panic": total on usize x usize
     fn op(&self, i: usize, d: usize) -> (r: Option<usize>) requires self.wf() ensures r == self.sop(i as int, d as int);
     fn m(&self, i: usize, j: usize, d: usize) -> (r: Option<usize>) requires self.wf() ensures r == self.sm(i as int, j as int, d as int);
+
+    // a default method no type overrides: verified once, against the interface contract
+    //@ begin src/dsets.rs :: trait DSet: Sized :: fn degrees_match | props=C04
+    //@ rw R16 /-> bool/-> (b: bool)/
+    //@ rw R14 /^([ \t]*)(\(0\.\.self\.dim\(\)\)\.all\()\|i\| (.*)\)$/\1let __b = \2|i: usize| -> (c: bool)\n\1{ \3 });\n\1__b/
+    fn degrees_match(&self, d: usize, e: usize) -> (b: bool)
+        requires self.wf()
+        ensures b == (forall|i: int| 0 <= i < self.sdim() ==> #[trigger] self.sm(i, i + 1, d as int) == self.sm(i, i + 1, e as int))
+    {
+        proof { self.lemma_wf(); }
+        let __b = (0..self.dim()).all(|i: usize| -> (c: bool)
+            requires i < self.sdim(), self.wf(), self.sdim() < usize::MAX
+            ensures c == (self.sm(i as int, i + 1, d as int) == self.sm(i as int, i + 1, e as int))
+        { self.m(i, i + 1, d) == self.m(i, i + 1, e) });
+        proof {
+            if __b {
+                assert forall|i: int| 0 <= i < self.sdim() implies #[trigger] self.sm(i, i + 1, d as int) == self.sm(i, i + 1, e as int) by {
+                    let rg = 0..(self.sdim() as usize);
+                    assert(IteratorSpec::remaining(&rg)[i] == i);
+                }
+            }
+        }
+        __b
+    }
+    //@ end
 }
 
 // the default `m` of the trait (plain D-sets carry no degrees)
